@@ -96,18 +96,25 @@ Clause(rec) ==
       lower == Closure(vs, must, ignAx \cup ignRd, srcAx, PT)
       upper == Closure(vs, must \cup may, ignAx, t0, PT)
       judged == IF rec.redn THEN vs ELSE ax
-      extras(up) == \E v \in judged : ~(tr[v] \subseteq t0[v] \cup up[v])
-      \* part 3: the modelled deviations (only to name the failing clause)
+      \* part 3: the modelled deviations (only to name the failing clause).
+      \* F1: axes sharing a tag behave as if equated (br).  F2: an einsum's
+      \* reduction descriptor ALSO receives what arrives at operand axes that
+      \* are broadcast along its index (bc) -- the descriptor only, one hop.
       br == BridgeEqs(ax, srcAx, PT)
       bc == BcastRednEqs(a)
-      upWith(ex) == Closure(vs, must \cup may \cup ex, ignAx, t0, PT)
-      conflict(up) == \E v \in judged : \E q \in DOMAIN rec.groups :
-                         Range(rec.groups[q]) \subseteq t0[v] \cup up[v]
+      upperBr == Closure(vs, must \cup may \cup br, ignAx, t0, PT)
+      viaBc(up, v) == UNION {up[e[1]] : e \in {f \in bc : f[2] = v}}
+      extras(up, f2) == \E v \in judged :
+                          ~(tr[v] \subseteq t0[v] \cup up[v] \cup (IF f2 THEN viaBc(up, v) ELSE {}))
+      conflict(up, f2) == \E v \in judged : \E q \in DOMAIN rec.groups :
+                            Range(rec.groups[q]) \subseteq
+                               t0[v] \cup up[v] \cup (IF f2 THEN viaBc(up, v) ELSE {})
   IN
   IF "raised" \in DOMAIN rec THEN
        (IF ~ShapesReadable(a) THEN "spec_shape"
-        ELSE IF conflict(upper) THEN "ok"
-        ELSE IF conflict(upWith(br \cup bc)) THEN "unique_error_via_shared_tag"
+        ELSE IF conflict(upper, FALSE) THEN "ok"
+        ELSE IF conflict(upperBr, FALSE) THEN "unique_error_via_shared_tag"
+        ELSE IF conflict(upper, TRUE) THEN "unique_error_einsum_bcast_redn"
         ELSE "unexpected_unique_error")
   ELSE IF ~SameStructure(a, b, m) THEN "structure"
   ELSE IF ~ShapesReadable(a) THEN "spec_shape"
@@ -115,10 +122,10 @@ Clause(rec) ==
   ELSE IF ~rec.redn /\ \E v \in rd : tr[v] # t0[v] THEN "redn_touched"
   ELSE IF \E v \in vs : ~((tr[v] \ t0[v]) \subseteq PT) THEN "foreign_tag"
   ELSE IF \E v \in judged : ~(lower[v] \subseteq tr[v]) THEN "missing"
-  ELSE IF extras(upper) THEN
-         (IF ~extras(upWith(br)) THEN "extra_via_shared_tag"
-          ELSE IF ~extras(upWith(bc)) THEN "extra_einsum_bcast_redn"
-          ELSE IF ~extras(upWith(br \cup bc)) THEN "extra_via_shared_tag+einsum_bcast_redn"
+  ELSE IF extras(upper, FALSE) THEN
+         (IF ~extras(upperBr, FALSE) THEN "extra_via_shared_tag"
+          ELSE IF ~extras(upper, TRUE) THEN "extra_einsum_bcast_redn"
+          ELSE IF ~extras(upperBr, TRUE) THEN "extra_via_shared_tag+einsum_bcast_redn"
           ELSE "extra")
   ELSE IF "c" \in DOMAIN rec THEN
          (IF ~SameStructure(b, rec.c, rec.map2) THEN "structure2"
